@@ -240,6 +240,13 @@ def emulate_pkg(pkg, n_qubits=0, seed=1, shots=1, sim="statevector"):
             return Outcome("unsupported", message=f"selene build failed: {str(e)[:1500]}", exc=e,
                            title="selene-build")
         inst = inst.with_seed(seed).with_shots(shots)
+        # a run that does not end is cut off (kind "timeout"); the limit only covers the execution of the
+        # built program (normally milliseconds), so it is two orders of magnitude above a loaded machine
+        run_limit = float(os.environ.get("VERIF_RUN_TIMEOUT", "60"))
+        if run_limit > 0:
+            import datetime
+
+            inst = inst.with_timeout(datetime.timedelta(seconds=run_limit))
         if sim == "stabilizer":
             inst = inst.stabilizer_sim()
         try:
@@ -250,6 +257,9 @@ def emulate_pkg(pkg, n_qubits=0, seed=1, shots=1, sim="statevector"):
             if e.failing_shot is not None:
                 stream = [(t, norm_value(v)) for t, v in e.failing_shot.entries]
             under = e.underlying_exception
+            if type(under).__name__ == "SeleneTimeoutError":
+                return Outcome("timeout", stream=stream, message=f"emulator run exceeded {run_limit:.0f}s: {str(under)[:300]}",
+                               exc=e, title="selene-timeout")
             if "Panic (#" not in str(under) and type(under).__name__ != "SelenePanicError":
                 return Outcome("unsupported", message=f"emulator error (not a program panic): {str(under)[:1500]}",
                                exc=e, title="selene-run")
